@@ -84,7 +84,26 @@ def dump(a, pos_scale=G, strict=True):
         if len(xf) != len(tup):
             raise ValueError("extra fields of %s have %d rows for %d terms" % (k, len(xf), len(tup)))
     st["cell"] = None if a.cell is None else [tuple(togrid(float(x), pos_scale) for x in row) for row in np.array(a.cell)]
+    # derived views must describe the same atoms as the arrays
+    if len(a) != n:
+        raise ValueError("len() is %d for %d positions" % (len(a), n))
+    der = [str(e) for e in a.elements]
+    want = [st["t_el"][t] if 0 <= t < len(st["t_el"]) else "?" for t in st["typ"]]
+    if der != want:
+        raise ValueError("the elements property lists %s, the type arrays say %s" % (der[:8], want[:8]))
     return st
+
+
+def observe(A):
+    """what a caller may do between two operations: look at the object through its read-only views"""
+    with quiet(), contextlib.redirect_stdout(io.StringIO()):
+        try:
+            _ = (A.elements, len(A), A.num_atom_types, A.num_bond_types, A.num_angle_types, A.num_dihedral_types, A.num_improper_types)
+            if A.cell is not None:
+                A.cell_is_orthorhombic()
+            A.label_atoms(list(range(len(A))))
+        except Exception:    # noqa
+            pass
 
 
 def gal_kind(kk, I):
@@ -196,6 +215,7 @@ def run_history(init, ops):
     _SHARED.clear()
     for op in ops:
         try:
+            observe(A)
             A = apply_op(A, op)
             A.assert_arrays_are_consistent_sizes()
             out.append(dump(A))
